@@ -16,9 +16,59 @@ import (
 // that arbitrary bytes survive the JSON round trip.
 
 type c24Tok struct {
-	Tok []byte `json:"tok"`
-	Who []byte `json:"who"`
+	Tok []byte  `json:"tok,omitempty"`
+	Who []byte  `json:"who"`
+	Pat *c24Pat `json:"pat,omitempty"` // when set, the token is Pat.bytes() (Tok is ignored)
 }
+
+// c24Pat spells a long token compactly: the Len-byte pattern of seed Seed
+// (byte i = 33 + (Seed + 7i + i/64) mod 90, the same function as C24.pat in
+// the Coq model) with the bytes at the positions in Set replaced. The Coq term
+// is built from C24.pat / C24.setb, so the model sees the FULL token.
+type c24Pat struct {
+	Len  int      `json:"len"`
+	Seed int      `json:"seed"`
+	Set  [][2]int `json:"set,omitempty"` // (position, byte), applied in order
+}
+
+// c24PHdr is one Authorization value Prefix ++ Pat.bytes().
+type c24PHdr struct {
+	Prefix string `json:"prefix"`
+	Pat    c24Pat `json:"pat"`
+}
+
+func (p c24Pat) bytes() []byte {
+	b := make([]byte, p.Len)
+	for i := range b {
+		b[i] = byte(33 + (p.Seed+7*i+i/64)%90)
+	}
+	for _, s := range p.Set {
+		if s[0] >= 0 && s[0] < len(b) {
+			b[s[0]] = byte(s[1])
+		}
+	}
+	return b
+}
+
+func (p c24Pat) coq() string {
+	t := App("C24.pat", Nat(p.Len), N(uint64(p.Seed)))
+	for _, s := range p.Set {
+		if s[0] >= 0 { // C24.setb beyond the end is the identity, like bytes()
+			t = App("C24.setb", Nat(s[0]), N(uint64(byte(s[1]))), t)
+		}
+	}
+	return t
+}
+
+// other returns a byte different from the pattern byte at position i (still printable).
+func (p c24Pat) other(i int) int {
+	c := int(p.bytes()[i])
+	if c == 'x' {
+		return 'y'
+	}
+	return 'x'
+}
+
 type c24Field struct {
 	WS1    string `json:"ws1,omitempty"`
 	Key    string `json:"key"`
@@ -41,6 +91,7 @@ type c24In struct {
 	Kind string       `json:"kind"` // bearer | xfcc | xast | cn | cnast | qun
 	Toks []c24Tok     `json:"toks,omitempty"`
 	Hdrs [][]byte     `json:"hdrs,omitempty"`
+	PHdr []c24PHdr    `json:"phdr,omitempty"` // bearer only: used instead of Hdrs when present
 	Sel  string       `json:"sel,omitempty"`
 	Ast  [][]c24Field `json:"ast,omitempty"`
 	DN   []c24RDN     `json:"dn,omitempty"`
@@ -303,7 +354,124 @@ func c24Mutate(r *rand.Rand, s []byte) []byte {
 	return b
 }
 
+var c24LenClasses = []int{1, 31, 32, 33, 63, 64, 65, 127, 128, 129, 255, 256, 1000, 1029}
+
+func c24Positions(n int) []int {
+	var ps []int
+	seen := map[int]bool{}
+	for _, p := range []int{0, 1, 31, 32, 63, 64, 65, n - 1} {
+		if p >= 0 && p < n && !seen[p] {
+			seen[p] = true
+			ps = append(ps, p)
+		}
+	}
+	return ps
+}
+
+func c24With(p c24Pat, pos, b int) c24Pat {
+	q := c24Pat{Len: p.Len, Seed: p.Seed, Set: append([][2]int(nil), p.Set...)}
+	q.Set = append(q.Set, [2]int{pos, b})
+	return q
+}
+
+// c24BearerLengths: for every length class, (1) the exact token, (2) near
+// misses of the SAME length differing at exactly one position p, (3) several
+// configured tokens of equal length differing from each other at one position
+// (long common prefixes and suffixes), each presented in turn.
+func c24BearerLengths() []c24In {
+	var out []c24In
+	for k, n := range c24LenClasses {
+		a := c24Pat{Len: n, Seed: 3 + 11*k}
+		cfg := []c24Tok{{Pat: &a, Who: []byte("alice")}}
+		out = append(out, c24In{Kind: "bearer", Toks: cfg, PHdr: []c24PHdr{{"Bearer ", a}}, Note: "len-exact"})
+		for _, p := range c24Positions(n) {
+			out = append(out, c24In{Kind: "bearer", Toks: cfg, PHdr: []c24PHdr{{"Bearer ", c24With(a, p, a.other(p))}}, Note: "len-same-one-byte-off"})
+		}
+		// one byte longer / shorter (prefix relation)
+		out = append(out, c24In{Kind: "bearer", Toks: cfg, PHdr: []c24PHdr{{"Bearer ", c24Pat{Len: n + 1, Seed: a.Seed}}}, Note: "len-plus-one"})
+		out = append(out, c24In{Kind: "bearer", Toks: cfg, PHdr: []c24PHdr{{"Bearer ", c24Pat{Len: n - 1, Seed: a.Seed}}}, Note: "len-minus-one"})
+		// siblings: same length, one byte apart, at the last position, at 64 (or the middle) and at 0
+		pos := []int{n - 1}
+		if n > 65 {
+			pos = append(pos, 64, 65)
+		} else if n > 2 {
+			pos = append(pos, n/2)
+		}
+		if n > 1 {
+			pos = append(pos, 0)
+		}
+		multi := []c24Tok{{Pat: &a, Who: []byte("alice")}}
+		sibs := []c24Pat{a}
+		for i, p := range pos {
+			b := c24With(a, p, a.other(p))
+			sibs = append(sibs, b)
+			bb := b
+			multi = append(multi, c24Tok{Pat: &bb, Who: []byte(fmt.Sprintf("sib-%d", i))})
+		}
+		if len(sibs) > 1 {
+			for _, t := range sibs {
+				out = append(out, c24In{Kind: "bearer", Toks: multi, PHdr: []c24PHdr{{"Bearer ", t}}, Note: "len-siblings"})
+			}
+			// a non-configured sibling (two positions changed)
+			if n > 3 {
+				x := c24With(c24With(a, n-1, a.other(n-1)), n-2, a.other(n-2))
+				out = append(out, c24In{Kind: "bearer", Toks: multi, PHdr: []c24PHdr{{"Bearer ", x}}, Note: "len-siblings-foreign"})
+			}
+		}
+	}
+	return out
+}
+
+// c24GenBearerLong: the random stream over the length classes.
+func c24GenBearerLong(r *rand.Rand) c24In {
+	n := c24LenClasses[r.Intn(len(c24LenClasses)-2)] + r.Intn(3) - 1
+	if r.Intn(12) == 0 {
+		n = 1000 + r.Intn(100)
+	}
+	if n < 1 {
+		n = 1
+	}
+	a := c24Pat{Len: n, Seed: r.Intn(90)}
+	rp := func() int {
+		if r.Intn(2) == 0 {
+			ps := c24Positions(n)
+			return ps[r.Intn(len(ps))]
+		}
+		return r.Intn(n)
+	}
+	in := c24In{Kind: "bearer", Note: "long-random"}
+	cands := []c24Pat{a}
+	seen := map[string]bool{string(a.bytes()): true}
+	for k := r.Intn(4); k > 0; k-- {
+		p := rp()
+		b := c24With(cands[r.Intn(len(cands))], p, a.other(p))
+		if !seen[string(b.bytes())] {
+			seen[string(b.bytes())] = true
+			cands = append(cands, b)
+		}
+	}
+	for i := range cands {
+		c := cands[i]
+		in.Toks = append(in.Toks, c24Tok{Pat: &c, Who: []byte(fmt.Sprintf("user-%d", i))})
+	}
+	var h c24Pat
+	switch r.Intn(6) {
+	case 0, 1: // a configured token
+		h = cands[r.Intn(len(cands))]
+	case 2, 3, 4: // same length, one more byte changed
+		p := rp()
+		h = c24With(cands[r.Intn(len(cands))], p, '0'+r.Intn(10))
+	default: // length changed
+		h = c24Pat{Len: n + 2*r.Intn(2) - 1, Seed: a.Seed}
+	}
+	in.PHdr = []c24PHdr{{c24Pick(r, []string{"Bearer ", "Bearer ", "Bearer ", "Bearer ", "bearer ", "Bearer  "}), h}}
+	return in
+}
+
 func c24GenBearer(r *rand.Rand) c24In {
+	if r.Intn(3) == 0 {
+		return c24GenBearerLong(r)
+	}
 	in := c24In{Kind: "bearer"}
 	seen := map[string]bool{}
 	for k := r.Intn(5); k > 0; k-- {
@@ -358,6 +526,7 @@ func c24Boundary() []c24In {
 	out = append(out, c24In{Kind: "bearer", Toks: nil, Hdrs: [][]byte{[]byte("Bearer ")}, Note: "boundary"})
 	out = append(out, c24In{Kind: "bearer", Toks: tk, Hdrs: [][]byte{[]byte("Basic x"), []byte("Bearer s3cr3t-Token")}, Note: "boundary"})
 	out = append(out, c24In{Kind: "bearer", Toks: tk, Hdrs: [][]byte{[]byte("Bearer s3cr3t-Token"), []byte("Basic x")}, Note: "boundary"})
+	out = append(out, c24BearerLengths()...)
 	for _, h := range []string{
 		`By=spiffe://cluster.local/ns/default/sa/server;Hash=468ed33be74eee6556d90c0149c1309e9ba61d6425303443c0748a02dd8de688;Subject="CN=client,OU=eng,O=Example";URI=spiffe://cluster.local/ns/default/sa/client;DNS=a.example.com;DNS=b.example.com`,
 		`Hash=aa;Subject="CN=first",Hash=bb;Subject="CN=second"`,
@@ -565,41 +734,91 @@ func c24Run(in c24In) CaseOut {
 	}
 	switch in.Kind {
 	case "bearer":
-		m := map[string]*vgirpc.AuthContext{}
-		ctxs := map[*vgirpc.AuthContext]bool{}
+		type cfgTok struct {
+			tok, who string
+		}
+		var cfg []cfgTok
+		known := map[string]bool{}
 		var toks []string
+		maxLen := 0
 		for _, t := range in.Toks {
-			if _, dup := m[string(t.Tok)]; dup {
+			tb, term := t.Tok, B(string(t.Tok))
+			if t.Pat != nil {
+				tb, term = t.Pat.bytes(), t.Pat.coq()
+			}
+			if known[string(tb)] {
 				continue // the model takes the first of equal keys; a Go map has one
 			}
-			ac := &vgirpc.AuthContext{Domain: "bearer", Authenticated: true, Principal: string(t.Who)}
-			m[string(t.Tok)] = ac
-			ctxs[ac] = true
-			toks = append(toks, Pair(B(string(t.Tok)), B(string(t.Who))))
+			known[string(tb)] = true
+			cfg = append(cfg, cfgTok{string(tb), string(t.Who)})
+			toks = append(toks, Pair(term, B(string(t.Who))))
+			if len(tb) > maxLen {
+				maxLen = len(tb)
+			}
 		}
-		req := &http.Request{Header: http.Header{}}
-		for _, v := range in.Hdrs {
-			req.Header.Add("Authorization", string(v))
+		var hdrs [][]byte
+		var hdrTerms []string
+		if len(in.PHdr) > 0 {
+			for _, ph := range in.PHdr {
+				hdrs = append(hdrs, append([]byte(ph.Prefix), ph.Pat.bytes()...))
+				hdrTerms = append(hdrTerms, "("+B(ph.Prefix)+" ++ "+ph.Pat.coq()+")")
+			}
+		} else {
+			for _, v := range in.Hdrs {
+				hdrs = append(hdrs, v)
+				hdrTerms = append(hdrTerms, B(string(v)))
+			}
 		}
-		ac, err := vgirpc.BearerAuthenticateStatic(m)(req)
 		type obs struct{ Result, Who, ErrType string }
-		var o obs
-		var res string
-		switch {
-		case err != nil:
-			o = obs{Result: "refused", ErrType: c24ErrType(err)}
-			res = App("C24.BReject", B(o.ErrType))
-			tags = append(tags, "refused")
-		case ac == nil || !ctxs[ac]:
-			o = obs{Result: "refused", ErrType: "foreign-context"}
-			res = App("C24.BReject", B(o.ErrType))
-		default:
-			o = obs{Result: "accepted", Who: ac.Principal}
-			res = App("C24.BAccept", B(o.Who))
-			tags = append(tags, "accepted")
+		// The authenticator is rebuilt and run several times: BearerAuthenticateStatic
+		// ranges over a Go map, whose order is random, and the outcome must not depend on it.
+		runOnce := func() (obs, string) {
+			m := map[string]*vgirpc.AuthContext{}
+			ctxs := map[*vgirpc.AuthContext]bool{}
+			for _, c := range cfg {
+				ac := &vgirpc.AuthContext{Domain: "bearer", Authenticated: true, Principal: c.who}
+				m[c.tok] = ac
+				ctxs[ac] = true
+			}
+			req := &http.Request{Header: http.Header{}}
+			for _, v := range hdrs {
+				req.Header.Add("Authorization", string(v))
+			}
+			ac, err := vgirpc.BearerAuthenticateStatic(m)(req)
+			switch {
+			case err != nil:
+				o := obs{Result: "refused", ErrType: c24ErrType(err)}
+				return o, App("C24.BReject", B(o.ErrType))
+			case ac == nil || !ctxs[ac]:
+				o := obs{Result: "refused", ErrType: "foreign-context"}
+				return o, App("C24.BReject", B(o.ErrType))
+			}
+			o := obs{Result: "accepted", Who: ac.Principal}
+			return o, App("C24.BAccept", B(o.Who))
 		}
-		coqIn := App("C24.Bearer", List(toks), c24BL(in.Hdrs))
-		return CaseOut{Coq: Pair(coqIn, App("C24.OBearer", res)), Tags: tags, Nontrivial: len(toks) > 0 && len(in.Hdrs) > 0, Obs: o}
+		o, res := runOnce()
+		reps := 1
+		if len(cfg) > 1 {
+			reps = 8
+		}
+		for i := 1; i < reps; i++ {
+			if o2, _ := runOnce(); o2 != o {
+				// outcome depends on map iteration order: report it as its own (refused-looking) observable
+				o = obs{Result: "unstable", Who: o.Who + "|" + o2.Who, ErrType: "unstable-across-map-orders"}
+				res = App("C24.BReject", B(o.ErrType))
+				tags = append(tags, "unstable")
+				break
+			}
+		}
+		tags = append(tags, o.Result)
+		switch {
+		case maxLen > 64:
+			tags = append(tags, "token>64")
+		case maxLen > 0:
+			tags = append(tags, "token<=64")
+		}
+		coqIn := App("C24.Bearer", List(toks), List(hdrTerms))
+		return CaseOut{Coq: Pair(coqIn, App("C24.OBearer", res)), Tags: tags, Nontrivial: len(toks) > 0 && len(hdrs) > 0, Obs: o}
 	case "xfcc":
 		coqObs, o, tags := c24RunXfcc(in.Sel, in.Hdrs, tags)
 		coqIn := App("C24.XfccRaw", B(in.Sel), c24BL(in.Hdrs))
@@ -661,6 +880,6 @@ func c24Run(in c24In) CaseOut {
 
 func init() {
 	_ = sort.Strings
-	Register("C24", "boundary headers first (scheme case, blanks, near-miss tokens, Envoy-style XFCC values, quoted delimiters, escapes), then: static-bearer configurations with exact / near-miss / foreign / multi-valued Authorization headers; XFCC headers rendered from random syntax trees (random key case, quoted and bare values over an alphabet with , ; \" \\ = % + blanks newline and high bytes, DN-shaped subjects, blanks around tokens, URL-encoded cert/uri/by); XFCC noise from fragments and damaged renderings; DN syntax trees and DN noise for extractCN; QueryEscape/QueryUnescape on random bytes. Non-trivial = bearer: a token is configured and a header is present; xfcc: non-empty header; cn/qun: non-empty string. distinct = distinct input JSON",
+	Register("C24", "boundary headers first (scheme case, blanks, near-miss tokens, Envoy-style XFCC values, quoted delimiters, escapes), static-bearer tokens over the length classes 1,31,32,33,63,64,65,127,128,129,255,256,1000,1029 (exact; same length with exactly one byte changed at 0,1,31,32,63,64,65,len-1; one byte longer/shorter; several configured equal-length tokens one byte apart, each presented in turn, plus a non-configured sibling), then: static-bearer configurations with exact / near-miss / foreign / multi-valued Authorization headers and a random stream over the same length classes; every multi-token configuration is rebuilt and run 8 times (Go map order is random) and an outcome that varies is reported as its own observable; XFCC headers rendered from random syntax trees (random key case, quoted and bare values over an alphabet with , ; \" \\ = % + blanks newline and high bytes, DN-shaped subjects, blanks around tokens, URL-encoded cert/uri/by); XFCC noise from fragments and damaged renderings; DN syntax trees and DN noise for extractCN; QueryEscape/QueryUnescape on random bytes. Non-trivial = bearer: a token is configured and a header is present; xfcc: non-empty header; cn/qun: non-empty string. distinct = distinct input JSON",
 		c24Gen, c24Run)
 }
